@@ -5,7 +5,9 @@ Proof:  Pdlv/Thm/C17.lean — endian_dual: the big-endian encoding has the same 
         layout, all item kinds, inheritance included); endian_dual_length.
 Tie:    every description is compiled together with its twin (only the endianness declaration differs);
         the encodings the emitted code produces for the same value under D and D' must be related by the
-        model's segment map (and each must equal the concatenation of the model's segments).
+        model's segment map (and each must equal the concatenation of the model's segments) — for the Rust
+        back end on the Rust class, and for the Python, C++ and Java back ends on their classes (serializer of
+        the emitted module / header + packet_runtime.h / classes).
 """
 import os
 import re
@@ -108,9 +110,77 @@ def main(argv):
                     run.count("dual_pairs")
                     run.hist("swap_segments", str(min(9, sum(1 for _, sw in segs if sw and len(_) > 2))))
             run.sample({"type": T, "values": len(vals)}, limit=4)
+    other_backends(run, wc.a)
     return wc.finish(extra_cov={
         "rule": "every generated description together with its endianness twin; in-range values of every packet/struct "
-                "type encoded by the emitted code under both; a case = (description, type, value)"})
+                "type encoded by the emitted code under both (Rust, Python, C++, Java; each on its construct class); "
+                "a case = (back end, description, type, value)"})
+
+
+def flip_segments(segs):
+    return "".join(("".join(reversed(re.findall("..", h))) if sw else h) for h, sw in segs)
+
+
+def other_backends(run, a):
+    """The same twin comparison on the serializers of the Python, C++ and Java back ends."""
+    from checks import backend_common as B
+    from vlib import gen_value as GV
+    n = 5 if a.tier == "quick" else 40
+    nvals = 3 if a.tier == "quick" else 8
+    for backend in ("python", "cxx", "java"):
+        be = B.Backend(run, backend, a.tier, a.seed + 17, n, tag="c17-" + backend)
+        be.generate(stratify=False)
+        base = list(be.descs)
+        be.descs = []
+        pairs = []
+        for d in base:
+            t = twin(d["text"])
+            if t is None:
+                continue
+            x = be.add_text(d["text"], origin=d["origin"])
+            y = be.add_text(t, origin="twin")
+            if x is not None and y is not None:
+                pairs.append((x, y))
+            elif (x is None) != (y is None):
+                run.violation("impl", "%s: a description is generated under one endianness only" % backend,
+                              {"pdl": d["text"], "backend": backend, "signature": {"class": "twin-rejected", "backend": backend}})
+        if not be.descs or not be.build():
+            be.close()
+            continue
+        index = {id(d): i for i, d in enumerate(be.descs)}
+        for x, y in pairs:
+            if id(x) not in index or id(y) not in index:
+                run.hist("skipped", "%s:twin-does-not-compile" % backend)
+                continue
+            ix, iy = index[id(x)], index[id(y)]
+            for T in be.types(ix):
+                types = x["types"]
+                tags = B.features_of(types.parent_chain(types.decls[T]), types)
+                vals = [GV.gen_value(types, T, be.rng)[0] for _ in range(nvals)]
+                ms = be.model(ix, T, [{"k": "segs", "v": v} for v in vals])
+                if not isinstance(ms, list):
+                    run.hist("model_status", "%s:%s" % (backend, ms))
+                    continue
+                for v, m in zip(vals, ms):
+                    if m.get("r") != "ok":
+                        continue
+                    rx, ry = be.ask(ix, T, "enc", v), be.ask(iy, T, "enc", v)
+                    if rx.get("r") != "ok" or ry.get("r") != "ok":
+                        run.hist("skipped", "%s:enc-%s/%s" % (backend, rx.get("r"), ry.get("r")))   # C13 / C14 / C19
+                        continue
+                    run.case((backend, x["text"], T, W.canon(v)))
+                    run.hist("backend_pairs", backend)
+                    flat = "".join(h for h, _ in m["segs"])
+                    if rx["hex"] != flat:
+                        # the serializer itself deviates from the reference: conformance, decided by C13 / C14 / C19
+                        run.hist("skipped", "%s:not-the-reference-encoding" % backend)
+                        continue
+                    if ry["hex"] != flip_segments(m["segs"]):
+                        run.violation("impl", "%s %s: the twin's encoding %s is not D's encoding %s with the integer segments "
+                                      "byte-reversed" % (backend, T, ry["hex"][:60], rx["hex"][:60]),
+                                      {"pdl": x["text"], "backend": backend, "type": T, "value": v, "enc_D": rx, "enc_twin": ry,
+                                       "model_segments": m, "signature": {"class": "not-dual", "backend": backend, **tags}})
+        be.close()
 
 
 if __name__ == "__main__":
